@@ -102,6 +102,9 @@ int sqfs_id_table_read(sqfs_id_table_t *tbl, sqfs_file_t *file,
 	size_t i;
 	int ret;
 
+	array_cleanup(&tbl->ids);
+	tbl->ids.size = sizeof(sqfs_u32);
+
 	if (!super->id_count || super->id_table_start >= super->bytes_used)
 		return SQFS_ERROR_CORRUPTED;
 
@@ -117,9 +120,6 @@ int sqfs_id_table_read(sqfs_id_table_t *tbl, sqfs_file_t *file,
 	    super->export_table_start < upper_limit) {
 		lower_limit = super->export_table_start;
 	}
-
-	array_cleanup(&tbl->ids);
-	tbl->ids.size = sizeof(sqfs_u32);
 
 	ret = sqfs_read_table(file, cmp, super->id_count * sizeof(sqfs_u32),
 			      super->id_table_start, lower_limit,
